@@ -16,9 +16,14 @@ class SecureRandomTransformer(LibcstResultTransformer, NameResolutionMixin):
         self.remove_unused_import(original_node)
         self.add_needed_import("secrets")
 
-        if self.find_base_name(original_node.func) == "random.choice":
-            return self.update_call_target(updated_node, "secrets")
-        return self.update_call_target(updated_node, "secrets.SystemRandom()")
+        # the function may be imported under an alias (`from random import randint as r`)
+        true_name = self.find_base_name(original_node.func)
+        func_name = true_name.split(".")[-1] if true_name else None
+        if true_name == "random.choice":
+            return self.update_call_target(updated_node, "secrets", func_name)
+        return self.update_call_target(
+            updated_node, "secrets.SystemRandom()", func_name
+        )
 
 
 SecureRandom = CoreCodemod(
